@@ -88,8 +88,8 @@ class C06(Prop):
     quick_examples = 1200
     thorough_examples = 6000
     fuzz_runs = 15000
-    floors = {'hostile': 0.15, 'nodict': 0.3, 'multi_action': 0.25, 'mode_watch': 0.05, 'mode_return': 0.05,
-              'mode_exception': 0.04, 'iterator': 0.08, 'non_utf8': 0.02,
+    floors = {'hostile': 0.15, 'nodict': 0.3, 'multi_action': 0.25, 'mode_watch': 0.05, 'mode_return': 0.04,
+              'mode_exception': 0.03, 'iterator': 0.08, 'non_utf8': 0.02,
               'different_settings_per_action': 0.1}
 
     def strategy(self, tier):
